@@ -250,4 +250,91 @@ theorem requirement_roundtrip (src : Str) (r : Requirement) (h : Req.parse src =
   rw [hspec] at hsp
   obtain ⟨_, c, _, hp⟩ := members_roundtrip _ _ hs sp hsp
   exact ⟨ReqClause.ver_chars_of_parse c sp hp, ReqClause.tokExact_of_parse c sp hp⟩
+
+/-! ### Non-vacuity: the hypotheses are satisfiable, the conclusions are not trivial -/
+namespace Examples
+
+/-- the exception a construction ends in (`none`: it succeeds) -/
+def errOf {α} : Req.Res α → Option Req.Err
+  | .error e => some e
+  | .ok _ => none
+
+/-- any layout: white space everywhere, parenthesised list, repeated extras, three clause spellings, a marker with
+an `extra` comparison that is normalised -/
+def src0 : Str := ofString " Foo.Bar [ b , a,b ] ( >= 1.0a1 , === x ,!=2.* ) ; os_name == 'a' or extra == 'X_y' "
+def can0 : Str := ofString "Foo.Bar[a,b]!=2.*,===x,>=1.0a1; os_name == \"a\" or extra == \"x-y\""
+
+example : (Req.parse src0).toOption.map Req.str = some can0 := by decide +kernel
+/-- … and the canonical string parses to a requirement with the same string (instance of `requirement_roundtrip`) -/
+example : (Req.parse can0).toOption.map Req.str = some can0 := by decide +kernel
+/-- the hypothesis of `requirement_roundtrip` holds for it: the literals `a`, `x-y` are PEP 508 strings -/
+def a1 : Atom := ⟨.var (ofString "os_name"), ofString "==", .val (ofString "a")⟩
+def a2 : Atom := ⟨.var (ofString "extra"), ofString "==", .val (ofString "x-y")⟩
+example : ((Req.parse src0).toOption.bind (·.marker)).map MkParse.atomsL = some [a1, a2] := by decide +kernel
+example : ∀ a ∈ [a1, a2], C09.LitOK a := by
+  intro a ha
+  simp only [List.mem_cons, List.mem_nil_iff, or_false] at ha
+  rcases ha with rfl | rfl
+  · exact ⟨(fun s hs => by cases hs), (fun s hs => by cases hs; exact ⟨by decide, by decide⟩)⟩
+  · exact ⟨(fun s hs => by cases hs), (fun s hs => by cases hs; exact ⟨by decide, by decide⟩)⟩
+
+/-- a URL requirement with a marker: white space separates them; no clauses (`url_xor_spec`, `marker_after_url_needs_ws`) -/
+def srcU : Str := ofString "n[x] @ https://h/p?a=b ; os_name=='a'"
+example : (Req.parse srcU).toOption.map (fun r => (r.url, r.spec.length, r.marker.isSome)) =
+    some (some (ofString "https://h/p?a=b"), 0, true) := by decide +kernel
+example : (Req.parse srcU).toOption.map Req.str = some (ofString "n[x]@ https://h/p?a=b ; os_name == \"a\"") := by
+  decide +kernel
+
+/-- `;` glued to the URL belongs to the URL: no marker is recognised -/
+def glued : Str := ofString "n @ https://h/p;os_name=='a'"
+theorem glued_semicolon : (Req.parse glued).toOption.map (fun r => (r.url, r.marker.isSome)) =
+    some (some (ofString "https://h/p;os_name=='a'"), false) := by decide +kernel
+
+/-- a URL followed by a clause is rejected -/
+example : errOf (Req.parse (ofString "n @ https://h/p >=1")) = some .invalidRequirement := by decide +kernel
+
+/-- names equal per PEP 503, extras in another order and repeated, a clause respelled with a trailing zero, the marker
+respelled: equal, and the hash keys agree (`eq_is_pep503_and_spec_eq`, `extras_as_set`, `hash_agrees`) -/
+example : (do
+    let a ← Req.parse (ofString "Foo.Bar[a,b]>=1.0;os_name=='a'")
+    let b ← Req.parse (ofString "foo_bar [b,a,b] >= 1.0.0 ; (os.name == \"a\")")
+    pure (Req.eq a b, decide (Req.hashKey a = Req.hashKey b))).toOption = some (true, true) := by decide +kernel
+/-- extras are compared as written; a different clause is a different requirement -/
+example : (do
+    let a ← Req.parse (ofString "n[a]>=1.0")
+    let b ← Req.parse (ofString "n[A]>=1.0")
+    let c ← Req.parse (ofString "n[a]>=1.1")
+    pure (Req.eq a b, Req.eq a c)).toOption = some (false, false) := by decide +kernel
+
+/-- the marker part is the stand-alone marker of the text after the semicolon (`requirement_marker_eq_marker`) -/
+example : ((Req.parse (ofString "n>=1 ;  (extra=='A_b')")).toOption.bind (·.marker)).map MkParse.atomsL =
+    (Mk.mkMarker Req.X (ofString "  (extra=='A_b')")).toOption.map MkParse.atomsL := by decide +kernel
+
+/-! #### the two known findings, in the model -/
+
+/-- F05: an `===` clause directly followed by `,` and white space — the SPECIFIER token swallows the comma, the rest is
+no continuation; without the white space the same list is accepted -/
+theorem f05_rejected : errOf (Req.parse (ofString "name ===1.0, >=2")) = some .invalidRequirement ∧
+    (Req.parse (ofString "name ===1.0,>=2")).toOption.map Req.str = some (ofString "name===1.0,>=2") := by
+  constructor <;> decide +kernel
+
+/-- F06: two spellings of equal clauses: the requirements are equal and hash alike, but their strings differ (the set
+keeps the member that was supplied first) -/
+theorem f06_str_depends_on_order : (do
+    let a ← Req.parse (ofString "n==1.0,==1.0.0")
+    let b ← Req.parse (ofString "n==1.0.0,==1.0")
+    pure (Req.eq a b, decide (Req.hashKey a = Req.hashKey b), Req.str a, Req.str b)).toOption =
+      some (true, true, ofString "n==1.0", ofString "n==1.0.0") := by decide +kernel
+
+/-- the trail errors of `_parse_version_many` -/
+example : errOf (Req.parse (ofString "x>=1.0.*")) = some .invalidRequirement ∧
+    errOf (Req.parse (ofString "x>=1.0+local")) = some .invalidRequirement ∧
+    errOf (Req.parse (ofString "x~=1")) = some .invalidRequirement := by
+  refine ⟨?_, ?_, ?_⟩ <;> decide +kernel
+
+/-- the generated SPECIFIER rule is literally the body of `Specifier._regex` (the pattern C12 proves equal to the
+PEP 440 clause language); if the source changes this fails to compile -/
+theorem specifier_rule_tied : Gen.ReqTok.specTied = true ∧ Gen.ReqTok.supported = true := by decide
+
+end Examples
 end C08
